@@ -31,7 +31,7 @@ def one(sid):
         shutil.rmtree(d)
         return
     res = {}
-    env = dict(os.environ, VERIF_REPO=d, VERIF_EVIDENCE_DIR='/tmp/vseed_evidence_' + sid)
+    env = dict(os.environ, VERIF_REPO=d, VERIF_EVIDENCE_DIR='/tmp/vseed_evidence_' + sid, VERIF_UNIT_CACHE=os.path.join(d, '.unit_cache'), VERIF_NO_KANI='1')
     for pr in claimed:
         q = subprocess.run(['./check', pr], cwd=RUN_ROOT, env=env, capture_output=True, text=True)
         res[pr] = dict(exit=q.returncode, lines=[l for l in q.stdout.split('\n') if l.startswith('VIOLATION') or l.startswith('UNDECIDED')][:6])
